@@ -2,9 +2,12 @@
    Spec/Printer.v prints a tree with the DOCUMENTED precedence numbers (`binop_prec`, `prec`), either fully
    parenthesised or with the minimal parentheses the documented table requires; the parser model (tied to
    src/expr/parser.rs by the correspondence stream and to its level table by C05_model_levels) reads every such
-   text back as the same tree and consumes all of it.  Proof: Proofs/RoundTrip{Lex,Num,Levels,Spec,P,Main}.v. *)
+   text back as the same tree and consumes all of it; every tree the parser produces is printable, so printing and
+   parsing a parsed tree is the identity.  Proof: Proofs/RoundTrip{Lex,Num,Levels,Spec,P,Main,Depth}.v,
+   Proofs/ParsePrintableP.v, Proofs/PrintStrP.v. *)
 From Coq Require Import NArith List Bool Arith String.
-From CA Require Import Model.Lexer Model.Parser Spec.Grammar Spec.Printer Proofs.RoundTripMain Proofs.RoundTripDepth.
+From CA Require Import Model.Lexer Model.Parser Model.Literal Spec.EvalWf Spec.Grammar Spec.Printer Proofs.RoundTripMain
+  Proofs.RoundTripDepth Proofs.ParsePrintableP Proofs.PrintStrP.
 Import ListNotations.
 Open Scope N_scope.
 
@@ -28,6 +31,38 @@ Proof. exact parse_full_height. Qed.
 Theorem C05_parse_print_min_height : forall e, wf_print e -> (2 * height e < PARSE_DEPTH_MAX)%nat ->
   exists w, parse_text (print_min e) = POk e w /\ cur w = bytes_len (print_min e).
 Proof. exact parse_min_height. Qed.
+
+(* the precondition `printable` (an executable predicate, Spec/Printer.v) holds of EVERY tree the parser produces,
+   whatever the source text: the two theorems above cover the whole language the parser accepts *)
+Theorem C05_parse_printable : forall s e w, parse_text s = POk e w -> printable e = true.
+Proof. exact parse_printable. Qed.
+
+(* so the round trip composes: printing a parsed tree (minimally or fully parenthesised) and parsing again gives the
+   same tree -- for every accepted source s, with any spacing, comments, separators, literal spellings.  The depth
+   hypothesis is about the PRINTED text; it cannot be dropped (C05_reparse_needs_depth) *)
+Theorem C05_reparse_stable : forall s e w, parse_text s = POk e w -> (depth_min e <= PARSE_DEPTH_MAX)%nat ->
+  exists w', parse_text (print_min e) = POk e w' /\ cur w' = bytes_len (print_min e).
+Proof. exact reparse_min. Qed.
+Theorem C05_reparse_stable_full : forall s e w, parse_text s = POk e w -> (depth_full e <= PARSE_DEPTH_MAX)%nat ->
+  exists w', parse_text (print_full e) = POk e w' /\ cur w' = bytes_len (print_full e).
+Proof. exact reparse_full. Qed.
+Theorem C05_reparse_stable_height : forall s e w, parse_text s = POk e w -> (2 * height e < PARSE_DEPTH_MAX)%nat ->
+  exists w', parse_text (print_min e) = POk e w' /\ cur w' = bytes_len (print_min e).
+Proof. intros s e w H Hh. apply parse_min_height; [exact (parse_printable s e w H)|exact Hh]. Qed.
+(* why the depth hypothesis: an explicit empty else `c ? t : {}` is the same tree as `c ? t`, whose printing in
+   front of a `:` needs a pair of parentheses, i.e. one more level than the source used: 46 unary minus signs in
+   front of `(a ? b ? c : {} : d)` parse at counter 50, the minimal printing `-...-(a ? (b ? c) : d)` needs 51 *)
+Definition deep_src : text :=
+  (repeat 45 46%nat ++ [40; 97; 32; 63; 32; 98; 32; 63; 32; 99; 32; 58; 32; 123; 125; 32; 58; 32; 100; 41])%list.
+Theorem C05_reparse_needs_depth :
+  exists e w, parse_text deep_src = POk e w /\ parse_text (print_min e) = PErr /\ depth_min e = 51%nat.
+Proof. eexists; eexists. split; [vm_compute; reflexivity|]. split; vm_compute; reflexivity. Qed.
+
+(* string literals: the literal printer of Spec/StrCodec gives, for every quote-free string, a printable token that
+   denotes the string (the lexer of the code cannot keep a double quote inside a string token) *)
+Theorem C05_string_literal : forall s, scalar_text s -> forallb noq s = true ->
+  printable (EStr (str_lit s)) = true /\ string_contents (str_lit s) = Some s.
+Proof. exact str_lit_printable. Qed.
 
 (* the printer's operator table IS the documented one (Spec/Grammar.documented_levels, transcribed from the wiki):
    operator o stands in the documented level number `binop_prec o` (assignment = 1 ... multiplication = 11), under
@@ -66,6 +101,12 @@ Definition ex5 : expr :=   (* (a ? b) ? x[(c ? d):0] : f(1, {0xff}) - 2 - (3 - 4
         (ESlice (ETern (ex_v 99) (ex_v 100) (EBlock [])) (ex_n 0) (ex_v 120))
         (EBin Sub (EBin Sub (ECall (ex_v 102) [ex_n 1; EBlock [ENum 255 (Some 8)]]) (ex_n 2)) (EBin Sub (ex_n 3) (ex_n 4))).
 
+Definition ex6 : expr :=   (* ..a.bb.$ = {x = "e\n", .y}`8 ? f("", 0b101) : - -3 *)
+  EBin Assign (EVar 2 [[97]; [98; 98]; [36]])
+    (ETern (EShort (ex_n 8) (EBlock [EBin Assign (ex_v 120) (EStr [34; 101; 92; 110; 34]); EVar 1 [[121]]]))
+           (ECall (ex_v 102) [EStr [34; 34]; ENum 5 (Some 3)])
+           (EUn Neg (EUn Neg (ex_n 3)))).
+
 Example C05_round_nonvacuous :
   print_min ex1 = [49; 32; 43; 32; 50; 32; 42; 32; 51]                                  (* 1 + 2 * 3 *)
   /\ print_min ex2 = [40; 49; 32; 43; 32; 50; 41; 32; 42; 32; 51]                       (* (1 + 2) * 3 *)
@@ -73,18 +114,21 @@ Example C05_round_nonvacuous :
   /\ print_min ex4 = [45; 120; 96; 56]                                                  (* -x`8 *)
   /\ print_full ex1 = [40; 49; 32; 43; 32; 40; 50; 32; 42; 32; 51; 41; 41]              (* (1 + (2 * 3)) *)
   /\ string_of_text (print_min ex5) = "(a ? b) ? x[(c ? d):0] : f(1, {0xff}) - 2 - (3 - 4)"%string
+  /\ print_min ex6 = [46;46;97;46;98;98;46;36;32;61;32;123;120;32;61;32;34;101;92;110;34;44;32;46;121;125;96;56;32;63;32;
+                      102;40;34;34;44;32;48;98;49;48;49;41;32;58;32;45;45;51]
   /\ Forall (fun e => wf_print e /\ (depth_min e <= PARSE_DEPTH_MAX)%nat /\ (depth_full e <= PARSE_DEPTH_MAX)%nat
                       /\ (exists w, parse_text (print_min e) = POk e w /\ cur w = bytes_len (print_min e))
                       /\ (exists w, parse_text (print_full e) = POk e w /\ cur w = bytes_len (print_full e)))
-            [ex1; ex2; ex3; ex4; ex5]
+            [ex1; ex2; ex3; ex4; ex5; ex6]
   /\ (exists w, parse_text [49; 32; 43; 32; 50; 32; 42; 32; 51] = POk ex1 w)            (* `*` binds tighter than `+` *)
   /\ (exists w, parse_text [97; 32; 61; 32; 98; 32; 63; 32; 99; 32; 58; 32; 100] = POk ex3 w).
 Proof.
   assert (H : Forall (fun e => wf_print e /\ (depth_min e <= PARSE_DEPTH_MAX)%nat /\ (depth_full e <= PARSE_DEPTH_MAX)%nat)
-                     [ex1; ex2; ex3; ex4; ex5]).
+                     [ex1; ex2; ex3; ex4; ex5; ex6]).
   { repeat constructor; vm_compute; (reflexivity || (intro; discriminate)). }
   split; [vm_compute; reflexivity|]. split; [vm_compute; reflexivity|]. split; [vm_compute; reflexivity|].
   split; [vm_compute; reflexivity|]. split; [vm_compute; reflexivity|]. split; [vm_compute; reflexivity|].
+  split; [vm_compute; reflexivity|].
   split; [|split].
   - revert H. apply Forall_impl. intros e (Hw & Hm & Hf).
     split; [exact Hw|]. split; [exact Hm|]. split; [exact Hf|].
